@@ -7,9 +7,12 @@
 From PdV.Model Require Import Frame.
 From PdV Require Import FrameProofs.
 
-(* After ANY history, a checked access to a strict frame with at least one row either refuses, or
-   leaves the register listing exactly the dataframe's columns in dataframe order (Inv04), each
-   with a unit compatible with its dtype (Inv15). *)
+(* After ANY history over that alphabet (the unit setter relabels between physical units only, see
+   C15), a checked access to a strict frame with at least one row either refuses, or leaves the
+   register listing exactly the dataframe's columns in dataframe order (Inv04), each with a unit
+   compatible with its dtype (Inv15).  What is proved is this invariant - one unit per column, in
+   column order, positional list = per-column lookup - not a relation between a column's unit before
+   and after a history (new columns get defaults, overwritten ones may be relabelled by the facade). *)
 Theorem C04_history_invariant :
   forall f0 ss f',
     J f0 -> f_strict f0 = true ->
